@@ -884,6 +884,7 @@ c05_ev_history c05_bitset_history_deep
 c14_container
 c19_cross_domain_direct c19_cross_domain_direct_mixed_len c19_path_for_shape
 c12_s_reader_outer_deep c12_s_writer_outer_deep
+c05_ev_id_out_of_range
 """.split())
 for _p in PROPS:
     for _h in PROPS[_p]["harnesses"]:
